@@ -146,6 +146,82 @@ def normv(v, kind):
     return v
 
 
+I32 = (-2147483648, 2147483647)
+I64 = (-(1 << 63), (1 << 63) - 1)
+I16 = (-32768, 32767)
+DM = [None, 0, 1, -1, 2147483647, -2147483648]
+
+
+class Ovf(Exception):
+    pass
+
+
+def rng(v, r):
+    if v is None:
+        return None
+    if not (r[0] <= v <= r[1]):
+        raise Ovf()
+    return v
+
+
+def x_add(x, y, r=I32):
+    return None if x is None or y is None else rng(x + y, r)
+
+
+def x_sub(x, y, r=I32):
+    return None if x is None or y is None else rng(x - y, r)
+
+
+def x_mul(x, y, r=I32):
+    return None if x is None or y is None else rng(x * y, r)
+
+
+def x_neg(x, r=I32):
+    return None if x is None else rng(-x, r)
+
+
+def x_div(x, y, r=I32):
+    if x is None or y is None or y == 0:
+        return None
+    return rng(int(x / y) if abs(x) < (1 << 52) else (abs(x) // abs(y)) * (1 if (x < 0) == (y < 0) else -1), r)
+
+
+def x_mod(x, y, r=I32):
+    if x is None or y is None or y == 0:
+        return None
+    rng(x_div(x, y, I64), r)       # MIN % -1 overflows like MIN / -1 in the checked implementation; both an error or 0 are accepted below
+    m = abs(x) % abs(y)
+    return -m if x < 0 else m
+
+
+def extreme_exprs():
+    """(sql, reference(a, b) -> value | None; raises Ovf where SQL requires an error)"""
+    return [
+        ("a + b", lambda a, b: x_add(a, b)),
+        ("a - b", lambda a, b: x_sub(a, b)),
+        ("a * b", lambda a, b: x_mul(a, b)),
+        ("- a", lambda a, b: x_neg(a)),
+        ("a / b", lambda a, b: x_div(a, b)),
+        ("a % b", lambda a, b: x_mod(a, b)),
+        ("(a + b) + 1", lambda a, b: x_add(x_add(a, b), 1)),
+        ("(a - b) - 1", lambda a, b: x_sub(x_sub(a, b), 1)),
+        ("(a * b) * 2", lambda a, b: x_mul(x_mul(a, b), 2)),
+        ("- (a + b)", lambda a, b: x_neg(x_add(a, b))),
+        ("(a + b) / 2", lambda a, b: x_div(x_add(a, b), 2)),
+        ("(a - b) * (a - b)", lambda a, b: x_mul(x_sub(a, b), x_sub(a, b))),
+        ("a + b + a", lambda a, b: x_add(x_add(a, b), a)),
+        ("(a + b) > 0", lambda a, b: None if x_add(a, b) is None else x_add(a, b) > 0),
+        ("(a + b) is null", lambda a, b: x_add(a, b) is None),
+        ("cast(a as bigint) + b", lambda a, b: x_add(a, b, I64)),
+        ("cast(a as bigint) * b", lambda a, b: x_mul(a, b, I64)),
+        ("cast(a as bigint) * cast(b as bigint) * 4294967296", lambda a, b: x_mul(x_mul(a, b, I64), 4294967296, I64)),
+        ("cast(a as smallint)", lambda a, b: rng(a, I16)),
+        ("cast(a + b as smallint)", lambda a, b: rng(x_add(a, b), I16)),
+        ("case when b is null then a else 0 end + 1", lambda a, b: x_add(a if b is None else 0, 1)),
+        ("case when a + b > 0 then 1 else 2 end", lambda a, b: 1 if (x_add(a, b) or 0) > 0 else 2),
+    ]
+
+
 OVERFLOW = [
     ("select a + b from o", [(2147483647, 1)]), ("select a - b from o", [(-2147483648, 1)]), ("select a * b from o", [(65536, 65536)]),
     ("select - a from o", [(-2147483648, 0)]), ("select cast(a as smallint) from o", [(70000, 0)]), ("select a / b from o", [(-2147483648, -1)]),
@@ -174,7 +250,7 @@ def run(tier, seed):
     chk = core.Check("C14", tier, "exploration",
                      f"{len(E)} scalar expressions (arithmetic, comparison, AND/OR/NOT, IS NULL, CASE, IN, BETWEEN, LIKE, ||, replace, CAST) over columns cycling through boundary domains with NULLs, "
                      f"batch lengths {lens(tier) if tier == 'quick' else '0..200'} x {{memory (one chunk), disk (64-byte blocks)}}; each as projection and, for booleans, as WHERE / (e) OR q / NOT (e) / (e) AND ..; "
-                     "row-by-row comparison with a scalar three-valued reference; plus overflow/out-of-range cases that must be errors, and all binary constant expressions over {null,0,1,-1,2} / {null,true,false}: folded value == run-time value == reference; "
+                     f"row-by-row comparison with a scalar three-valued reference; plus {len(extreme_exprs())} nested arithmetic/cast expressions over all pairs of {{NULL,0,+-1,INT MIN,INT MAX}} (defined rows in one batch == reference, every overflowing row alone must be an error); plus overflow/out-of-range cases that must be errors, and all binary constant expressions over {{null,0,1,-1,2}} / {{null,true,false}}: folded value == run-time value == reference; "
                      "a case = (expression, form, batch length, engine); non-trivial = batch has >= 1 row", seed)
     items = []
     for L in lens(tier):
@@ -226,6 +302,52 @@ def run(tier, seed):
                     chk.fail(cid, f"wrong-value@{tag}:{form}", c, {"first_bad": bad[:5], "n_bad": len(bad)}, outcome="wrong")
                 else:
                     chk.ok(cid, nontrivial=L > 0, outcome="ok:" + form, sample={"case": c})
+    # ---- extreme domain: nested arithmetic over {NULL, 0, +-1, MIN, MAX}: rows whose scalar value is defined are evaluated in
+    # one batch (NULL rows next to MIN/MAX rows: raw bits under NULL slots must not matter); every row that overflows is
+    # evaluated alone and must be an error, not a panic and not a wrapped value
+    XE = extreme_exprs()
+    pairs = [(a, b) for a in DM for b in DM]
+    scripts, meta = [], []
+    for sql, f in XE:
+        good, bad = [], []
+        for i, (a, b) in enumerate(pairs):
+            try:
+                good.append((i, a, b, f(a, b)))
+            except Ovf:
+                bad.append((i, a, b))
+        for engine in ("mem", "disk"):
+            steps = [{"sql": "create table m(i int, a int, b int)"}, {"sql": U.insert_sql("m", [(i, a, b) for (i, a, b, _) in good])},
+                     {"sql": f"select i, {sql} from m"}]
+            scripts.append({"id": 0, "engine": engine, "opts": {"block": 64, "rowset": 1 << 20}, "steps": steps})
+            meta.append(("batch", sql, engine, good))
+        for (i, a, b) in bad:
+            steps = [{"sql": "create table m(i int, a int, b int)"}, {"sql": U.insert_sql("m", [(i, a, b)])}, {"sql": f"select i, {sql} from m"}]
+            scripts.append({"id": 0, "engine": "mem", "steps": steps})
+            meta.append(("ovf", sql, "mem", (a, b)))
+    for (kind_, sql, engine, info), r in zip(meta, runner.run_many("sql", scripts, timeout=120)):
+        x = r["results"][-1] if not r.get("abort") else r
+        if kind_ == "batch":
+            c = {"extreme": sql, "engine": engine}
+            cid = core.case_id(c)
+            if not U.is_rows(x):
+                chk.fail(cid, "spurious-error-on-defined-rows", c, x, outcome="fails")
+                continue
+            gm = {g[0]: g[1] for g in U.decode(x)}
+            badrows = [(i, a, b, gm.get(i, "MISSING"), v) for (i, a, b, v) in info
+                       if (gm.get(i, "MISSING") if not isinstance(gm.get(i), bool) else bool(gm.get(i))) != v and not (sql == "a % b" and v == 0 and gm.get(i) == 0)]
+            if badrows or len(gm) != len(info):
+                chk.fail(cid, "wrong-value@extreme", c, {"first_bad": badrows[:5], "n_bad": len(badrows), "rows": len(gm)}, outcome="wrong")
+            else:
+                chk.ok(cid, outcome="ok:extreme-batch", sample={"case": c})
+        else:
+            c = {"extreme": sql, "row": list(info)}
+            cid = core.case_id(c)
+            st = U.status(x)
+            mod_ok = sql == "a % b" and U.is_rows(x) and U.decode(x)[0][1] == 0      # MIN % -1 = 0 is also a correct answer
+            if (st.startswith("err") and "panicked" not in json.dumps(x)) or mod_ok:
+                chk.ok(cid, outcome="overflow-reported")
+            else:
+                chk.fail(cid, "overflow-not-an-error:extreme", c, x, outcome="overflow")
     # ---- overflow must be an error
     scripts = []
     for q, data in OVERFLOW:
